@@ -223,6 +223,15 @@ def _reverse(A, f_ag, argnum, call_args, x):
                 struct_bad = struct_bad or ("no vspace: %s" % type(e).__name__, repr(xs)[:200])
             gr = O.realify(g) if O.structure(g)[0] != "obj" else None
             rows[k] = gr
+        if not rows:          # output space of dimension 0 (empty array): no basis vector - apply the VJP to the zero cotangent once
+            g = vjp(outvs.zeros())
+            try:
+                gvs = A["vspace"](g)
+                if not (gvs == xs):
+                    struct_bad = (repr(gvs)[:200], repr(xs)[:200])
+            except Exception as e:
+                struct_bad = ("no vspace: %s" % type(e).__name__, repr(xs)[:200])
+            r["zero_cotangent_size"] = int(O.realify(g).size)
         r["rows"] = rows
         r["n"] = n
         r["m"] = O.realify(val).size
